@@ -43,7 +43,7 @@ DispatchAll(x) == IF x.srvq = <<>> \/ x.gone THEN x
                   ELSE DispatchAll(Dispatch([x EXCEPT !.srvq = Tail(@)], Head(x.srvq)))
 RECURSIVE PullAll(_, _)
 PullAll(x, n) == LET h == HandleOf(x, n) IN
-                 IF h = "" \/ x.hs[h].pend = <<>> THEN x ELSE PullAll(Pull(x, n), n)
+                 IF h = "" \/ x.hs[h].pend = <<>> THEN x ELSE PullAll(PullD(x, n), n)
 
 IsFinal(f) == f.ch = 0 /\ f.m \in {"connection.close", "connection.close-ok"}
 
